@@ -135,6 +135,8 @@ def ig_bg2(case, ctx):
             for r in recs:
                 f.write(f"{cname(r[0])}\t{r[1]}\t{r[1] + 1}\t{cname(r[2])}\t{r[3]}\t{r[3] + 1}\t{r[4]}\n")
         args = ["load", "-f", "bg2", _bins_arg(d, table), txt, out, "--chunksize", str(case["chunk"]), "--temp-dir", d]
+        if case.get("mergebuf"):
+            args += ["--mergebuf", str(case["mergebuf"])]
         if case["one_based"]:
             args.append("--one-based")
         if tril == "drop":
@@ -174,6 +176,8 @@ def ig_coo(case, ctx):
             for p in px:
                 f.write(f"{p[0]}\t{p[1]}\t{p[2]}\n")
         args = ["load", "-f", "coo", _bins_arg(d, table), txt, out, "--chunksize", str(case["chunk"]), "--temp-dir", d]
+        if case.get("mergebuf"):
+            args += ["--mergebuf", str(case["mergebuf"])]          # (default: the chunk size)
         if case["one_based"]:
             args.append("--one-based")
         if tril == "drop":
